@@ -11,7 +11,7 @@ from vfw.core import Violation, must_return
 from vfw.model import stencil as M
 
 PROPERTY = "C02"
-SIZES = {"quick": 3200, "thorough": 160000}
+SIZES = {"quick": 6400, "thorough": 160000}
 RULE = (
     "Hypothesis draws constructor arguments (periodic as bool / list naming a subset / total dict; boundary "
     "and fill_value as None / scalar / total mapping / partial mapping), per-call arguments in the same "
